@@ -71,7 +71,9 @@ func (fv *FuncVC) streamPrelude() []string {
 		ghostOnly[len(ghostOnly)-1] = "(define-fun pushstk ((m Int) (s Int)) Int (+ (* 4 s) (ite (= m 7) 0 (ite (or (= m 16) (= m 14) (= m 17)) 2 (ite (= m 1) 3 1)))))"
 	}
 	if fv.Mode != ModeInt {
-		return ghostOnly
+		at := fmt.Sprintf("(Array %s %s)", idxSort(fv.Mode), SByte.smt(fv.Mode))
+		return append(ghostOnly, fmt.Sprintf("(declare-fun cleanrun (%s %s %s) Bool)", at, idxSort(fv.Mode), idxSort(fv.Mode)),
+			fmt.Sprintf("(declare-fun validrune (%s %s %s) Bool)", at, idxSort(fv.Mode), idxSort(fv.Mode)))
 	}
 	return append(ghostOnly, []string{
 		"(define-fun ishex ((b Int)) Bool (or (and (<= 48 b) (<= b 57)) (and (<= 97 b) (<= b 102)) (and (<= 65 b) (<= b 70))))",
